@@ -20,8 +20,8 @@ EXTENDS Integers, Sequences, FiniteSets, TLC
 (*           root is found by walking up to the nearest mos.toml; outputs do not move)         *)
 (*   style   --error-style: how diagnostics are printed (never whether, nor where they point)  *)
 CONSTANTS Cfgs
-Steps == <<"config", "mkdir", "parse", "codegen", "checkformat", "merge", "writebanks", "writelisting", "writesymbols", "done">>
-FailPoints == {"none", "config", "parse", "codegen", "merge", "io"}
+Steps == <<"config", "mkdir", "parse", "codegen", "checkformat", "merge", "listing", "writebanks", "writelisting", "writesymbols", "done">>
+FailPoints == {"none", "config", "parse", "codegen", "merge", "listing", "io"}      \* "listing": the listings cannot be generated (prepared before the first write)
 
 (* strings are opaque to TLC: the stems of the entries in use are tabulated *)
 Stem(entry) == CASE entry = "main.asm" -> "main" [] entry = "prog.asm" -> "prog" [] entry = "src/start.asm" -> "start" [] OTHER -> "main"
@@ -64,7 +64,7 @@ Spec == Init /\ [][Next]_vars /\ WF_vars(Next)
 (* C04: a build that fails because of the *program* or the configuration writes nothing *)
 NoOutputOnError == (status = "failed" /\ failAt # "io") => \A f \in Names : files[f] = 0
 (* every check happens before the first write *)
-ChecksBeforeWrites == (\E f \in Names : files[f] = 1) => pc > 6
+ChecksBeforeWrites == (\E f \in Names : files[f] = 1) => pc > 7
 (* a successful build has written exactly the files of its configuration *)
 SuccessWritesAll == status = "ok" => \A f \in Names : files[f] = 1 <=> f \in Written(cfg)
 (* the target directory exists from step 2 on, even when the build fails later (not an output file) *)
@@ -72,7 +72,7 @@ TargetDirCreated == pc > 2
 Terminates == <>(status # "running")
 
 (* ---- what one run of the command is expected to leave, for the conformance judge ---- *)
-(* fault: "none" | "config" | "parse" | "codegen" | "importparse"                         *)
-Outcome(c, fault) == IF fault # "none" \/ (c.fmt = "prg" /\ NBanks(c) # 1) THEN "failed" ELSE "ok"
+(* fault: "none" | "config" | "parse" | "codegen" | "importparse" | "bpl0" (num-bytes-per-line = 0 with listing on) *)
+Outcome(c, fault) == IF (fault \notin {"none", "bpl0"}) \/ (fault = "bpl0" /\ c.listing) \/ (c.fmt = "prg" /\ NBanks(c) # 1) THEN "failed" ELSE "ok"
 DirExpected(c, fault) == fault # "config"
 ================================================================================
